@@ -27,10 +27,11 @@
    pure list operations on [rtree].
 
    The record [variant] says which of the proposed fixes (proposed_fixes/C11-*.patch) are
-   applied; [shipped] is the code as it is in /repo (HEAD c2fa7c8, which already has
-   new_root_mut in set_architectures/add_profile, add_profile appending after the last
-   PROFILES node, and the builder writing an architecture list only when one was given),
-   [fixed] the code with all the patches.
+   applied; [shipped] is the code as it was in /repo at c2fa7c8, before this cone's patches (it
+   already had new_root_mut in set_architectures/add_profile, add_profile appending after the
+   last PROFILES node, and the builder writing an architecture list only when one was given),
+   [fixed] the code with all the patches = the code as it is in /repo now (the eight patches
+   C11-01..08 are commits 40d0dc3 .. 12709db, C11-10 in-place splices is 5517d72).
 
    Panic sites:  30 detach in an immutable tree ("immutable tree")   31 attach into/of an immutable tree
      32 attach beyond the end (Vec::splice range)   33 splice_children on an immutable tree
